@@ -12,7 +12,7 @@ from xh_support import prepare_cattrs  # noqa: E402
 conv = prepare_cattrs("cl03.core.cattrs_converter")
 S = conv.structure_from_dict
 U = conv.unstructure_to_dict
-from cl03.models import Address, Employee, Person, Stamps  # noqa: E402
+from cl03.models import Account, Address, Employee, Person, Stamps  # noqa: E402
 
 STATUS = ["active", "in-active", "on hold"]
 LEVEL = [1, 2, 3]
@@ -25,6 +25,7 @@ _WARM = [
     (Person, {"firstName": "a", "mood": None, "user_name_2": "u", "home-address": {"street": "s"}, "status": "active", "level": 1, "attrs": {"k": 1}, "addresses": [{"street": "t"}]}),
     (Stamps, {"created": WHENS[0], "born": DAYS[0], "avatar": BLOBS[1], "score": 1.5, "active": True}),
     (Employee, {"id": 1, "boss": "b", "office": {"street": "s"}}),
+    (Account, {"user_id_2": "r", "userId": "a", "user_id": "b", "User-Id": 3}),
 ]
 if int(os.environ.get("VERIF_WARM", "0") or 0) == 1:
     _WARM.reverse()
@@ -114,6 +115,30 @@ def tw_person_colliding_keys(fn: str, has_a: bool, a: str, has_b: bool, b: str, 
     post: _
     """
     U(S({"firstName": fn, "mood": "ok", "userName": a}, Person))
+    return False
+
+
+def ob_account_suffix_first(r: str, has_a: bool, a: str, has_b: bool, b: str, has_c: bool, c: int) -> bool:
+    """
+    pre: len(r) <= 1 and len(a) <= 1 and len(b) <= 1
+    post: _
+    """
+    doc = {"user_id_2": r}
+    if has_a:
+        doc["userId"] = a
+    if has_b:
+        doc["user_id"] = b
+    if has_c:
+        doc["User-Id"] = c
+    return _rt(doc, Account)
+
+
+def tw_account_suffix_first(r: str, has_a: bool, a: str, has_b: bool, b: str, has_c: bool, c: int) -> bool:
+    """
+    pre: len(r) <= 1 and len(a) <= 1 and len(b) <= 1
+    post: _
+    """
+    U(S({"user_id_2": r, "userId": a}, Account))
     return False
 
 
